@@ -52,16 +52,15 @@ let sq name l mode =
       let is_str = (match h with M.HCopyString -> true | _ -> false) in
       let payload = range 1 l @ (if is_str then [0] else []) in
       let need = List.length payload in
-      let len = n_of_int l in
       if mode = "null" then
-        (match M.run_helper hc payload len None (n_of_int 123456789) with
+        (match M.spec_helper hc.M.hc_msg payload None (n_of_int 123456789) with
          | M.HOk (_, size) -> "ok size=" ^ string_of_n size
          | M.HThrow m -> "err " ^ ocaml_of_cstring m)
       else if mode = "short" && need = 0 then "na"
       else
         let cap = (match mode with "short" -> need - 1 | "exact" -> need | _ -> need + 3) in
         let contents = List.map (fun _ -> -1) (range 1 (cap + 16)) in
-        (match M.run_helper hc payload len (Some contents) (n_of_int cap) with
+        (match M.spec_helper hc.M.hc_msg payload (Some contents) (n_of_int cap) with
          | M.HThrow m -> "err " ^ ocaml_of_cstring m
          | M.HOk (None, _) -> "model-predicts:no-buffer"
          | M.HOk (Some out, size) ->
